@@ -198,6 +198,15 @@ func (b *Balloon) RefreshVersion() error {
 	return nil
 }
 
+// RebuildCache function rebuilds the in-memory cache of the hyper tree from
+// the store. It must be called whenever the store has been changed behind the
+// balloon's back (e.g. after loading a snapshot).
+func (b *Balloon) RebuildCache() {
+	b.Lock()
+	defer b.Unlock()
+	b.hyperTree.RebuildCache()
+}
+
 // Add funcion inserts an event hash into the history and hyper trees, creates a snapshot
 // with these insertions results, and returns the snapshot along with certain mutations to
 // do to the persistent storage.
